@@ -77,11 +77,11 @@ def parse_output(out):
     return res
 
 
-def oracle(spec, payload, cfg=None, shards=16, timeout=600, key='calls', constants_env=None):
+def oracle(spec, payload, cfg=None, shards=16, timeout=600, key='calls', constants_env=None, per_shard=200):
     """Evaluate a Gen_* spec on payload (a dict).  payload[key] (a list) is split over `shards` JVMs;
     the other entries are passed to every shard.  Returns the merged output with out[key] in order."""
     items = payload[key]
-    n = max(1, min(shards, (len(items) + 199) // 200))
+    n = max(1, min(shards, (len(items) + per_shard - 1) // per_shard))
     size = (len(items) + n - 1) // n if items else 0
     d = env.subdir(f'oracle-{os.getpid()}-{_counter[0]}-{int(time.time()*1000) % 100000}')
     jobs = []
